@@ -159,8 +159,6 @@ def run_cppcheck(root, sources, opts, builddir=None, jobs=1, trace=False, env=No
         r["cache_events"] = evs
         r["hdr"] = hdr
         r["raw_n"] = sum(len(v) for v in raw.values())
-        hdr2, evs2 = tracenorm.normalize(raw, view="run")
-        r["events"] = evs2
         shutil.rmtree(tdir, ignore_errors=True)
     return r
 
